@@ -105,6 +105,14 @@ def cases(tier):
         for c1, c2, c3 in itertools.product(('sum', 'product', 'pow'), repeat=3):
             for a, b, c, d in itertools.product(s4, repeat=4):
                 out.append(dict(route='api', d=D(mod(c1, mod(c2, a[1], b[1]), mod(c3, c[1], d[1])))))
+    # powers of powers, composed directly: the magnitude idiom (f^2)^0.5 with f changing sign, (f^2)^1.5, (f^4)^0.25
+    Ld = dict((n_, it_) for n_, it_, _l in L)
+    for fname in ('poly_neg', 'polynomial', 'morse', 'py_deriv'):
+        for e1, e2 in ((2, 0.5), (2, 1.5), (4, 0.25), (2, 2), (3, 2), (2.0, 0.5)):
+            t = mod('pow', mod('pow', Ld[fname], form('constant', e1)), form('constant', e2))
+            out.append(dict(route='api', d=D(t)))
+            out.append(dict(route='api', d=D(mod('sum', t, Ld['morse']))))
+            out.append(dict(route='api', d=D(mod('product', Ld['const_int'], t))))
     # multi-range potentials with a non-zero default value (a plateau below the first range: its derivatives are zero)
     for comb in ('none', 'sum', 'product'):
         for marker in ('>', '>='):
